@@ -100,9 +100,9 @@ Definition good_state (q : pst) : bool :=
 (* state after the lines of an entry *)
 Definition end_state (e : entry) : pst :=
   match e_bw e, e_policy e with
-  | None, _ => waiting_w
+  | None, None => waiting_w
   | Some _, None => waiting_p
-  | Some _, Some _ => waiting_r
+  | _, Some _ => waiting_r
   end.
 
 (* ---- tokens of a well-formed entry ---- *)
@@ -321,14 +321,16 @@ Qed.
 
 (* "p" line *)
 Definition p_line (p : list bytes) : bytes := sp_join (str "p" :: p).
-Lemma step_p a p : p <> [] ->
-  step {| ps := waiting_p; attrs := a |} (p_line p) = ({| ps := waiting_r; attrs := a |}, [], None).
+(* after the "w" line (waiting_p) and, since the repair of C16-F1, directly after the "s" line (waiting_w) *)
+Lemma step_p q a p : p <> [] -> q = waiting_p \/ q = waiting_w ->
+  step {| ps := q; attrs := a |} (p_line p) = ({| ps := waiting_r; attrs := a |}, [], None).
 Proof.
-  intros Hne. destruct p as [|t p]; [congruence|].
+  intros Hne Hq. destruct p as [|t p]; [congruence|].
   assert (Hline : p_line (t :: p) = "p"%char :: " "%char :: sp_join (t :: p)) by reflexivity.
-  unfold step. cbn [ps attrs find md_table pst_eqb p_from p_match mmatch andb].
-  rewrite Hline; cbn [prefixb bs list_ascii_of_string Ascii.eqb Bool.eqb andb forallb negb].
-  rewrite <- Hline; cbn [p_handle p_to run_handler]. reflexivity.
+  assert (Hign : ignorable (p_line (t :: p)) = false) by (rewrite Hline; apply ignorable_kw; reflexivity).
+  unfold step. destruct Hq as [-> | ->]; cbn [ps attrs find md_table pst_eqb p_from p_match mmatch andb];
+    rewrite ?Hign; rewrite Hline; cbn [prefixb bs list_ascii_of_string Ascii.eqb Bool.eqb andb forallb negb];
+    rewrite <- Hline; cbn [p_handle p_to run_handler]; reflexivity.
 Qed.
 
 (* the first line of the GETINFO reply and the last line of the event *)
@@ -386,12 +388,12 @@ Lemma render_entry_eq e :
      ++ match e_policy e with Some p => [p_line p] | None => [] end.
 Proof. reflexivity. Qed.
 
-Lemma feed_entry q pa e rest : wf_parts e -> good_state q = true -> p_without_w e = false ->
+Lemma feed_entry q pa e rest : wf_parts e -> good_state q = true ->
   feed {| ps := q; attrs := pa |} (render_entry e ++ rest) =
   let '(s2, o2, e2) := feed {| ps := end_state e; attrs := Some (kw_of e) |} rest in (s2, emit_pending pa ++ o2, e2).
 Proof.
-  intros W Hq Hf. rewrite render_entry_eq.
-  unfold p_without_w in Hf. pose proof (wp_bw e W) as Hbw. pose proof (wp_policy e W) as Hpol.
+  intros W Hq. rewrite render_entry_eq.
+  pose proof (wp_bw e W) as Hbw. pose proof (wp_policy e W) as Hpol.
   pose proof (wp_wextra e W) as Hwx.
   assert (Hk : kw_of e = match e_bw e with
                          | Some d => set_bw (set_flags (with_v6 (begun e) (e_v6 e)) (e_flags e)) d
@@ -401,15 +403,17 @@ Proof.
     destruct (e_bw e) as [d|]; [|now rewrite K1].
     destruct (entry_kw e (e_flags e) d) as [_ K2]. now rewrite K2. }
   unfold end_state. rewrite Hk. clear Hk.
-  destruct (e_bw e) as [d|]; destruct (e_policy e) as [p|]; try discriminate;
+  destruct (e_bw e) as [d|]; destruct (e_policy e) as [p|];
     cbn [app]; rewrite <- app_assoc; cbn [app];
     rewrite (feed_cons_ok _ _ _ _ _ (step_r q pa e W Hq));
     rewrite feed_a_lines by apply (wp_v6 e W);
     rewrite (feed_cons_ok _ _ _ _ _ (step_s _ (e_flags e) (wp_flags_ne e W) (wp_flags e W))).
   - rewrite (feed_cons_ok _ _ _ _ _ (step_w _ d (e_wextra e) Hbw Hwx)).
-    rewrite (feed_cons_ok _ _ _ _ _ (step_p _ p (proj1 Hpol))).
+    rewrite (feed_cons_ok _ _ _ _ _ (step_p waiting_p _ p (proj1 Hpol) (or_introl eq_refl))).
     destruct (feed _ rest) as [[s2 o2] e2]. reflexivity.
   - rewrite (feed_cons_ok _ _ _ _ _ (step_w _ d (e_wextra e) Hbw Hwx)).
+    destruct (feed _ rest) as [[s2 o2] e2]. reflexivity.
+  - rewrite (feed_cons_ok _ _ _ _ _ (step_p waiting_w _ p (proj1 Hpol) (or_intror eq_refl))).
     destruct (feed _ rest) as [[s2 o2] e2]. reflexivity.
   - destruct (feed _ rest) as [[s2 o2] e2]. reflexivity.
 Qed.
@@ -424,16 +428,16 @@ Fixpoint doc_end (s : pstate) (d : doc) : pstate :=
   match d with [] => s | e :: r => doc_end {| ps := end_state e; attrs := Some (kw_of e) |} r end.
 
 Lemma feed_doc d : forall q pa rest,
-  Forall wf_parts d -> good_state q = true -> existsb p_without_w d = false ->
+  Forall wf_parts d -> good_state q = true ->
   feed {| ps := q; attrs := pa |} (render_doc d ++ rest) =
   let '(s2, o2, e2) := feed (doc_end {| ps := q; attrs := pa |} d) rest in (s2, doc_out pa d ++ o2, e2).
 Proof.
-  induction d as [|e d IH]; intros q pa rest W Hq Hf.
+  induction d as [|e d IH]; intros q pa rest W Hq.
   - cbn [render_doc flat_map app doc_end doc_out]. destruct (feed _ rest) as [[s2 o2] e2]. reflexivity.
-  - cbn [existsb] in Hf. apply orb_false_iff in Hf as [Hf1 Hf2]. inversion W as [|? ? We Wd]; subst.
+  - inversion W as [|? ? We Wd]; subst.
     cbn [render_doc flat_map]. rewrite <- app_assoc. rewrite feed_entry by assumption.
     change (flat_map render_entry d) with (render_doc d).
-    rewrite (IH (end_state e) (Some (kw_of e)) rest Wd (end_state_good e) Hf2).
+    rewrite (IH (end_state e) (Some (kw_of e)) rest Wd (end_state_good e)).
     cbn [doc_end doc_out]. destruct (feed _ rest) as [[s2 o2] e2]. now rewrite app_assoc.
 Qed.
 
